@@ -133,5 +133,9 @@ func extendMacroEnv(macro *object.Macro, args []object.Quote) *State {
 		extended.Set(param.Value().Literal(), args[paramIdx])
 	}
 
-	return &State{env: extended}
+	// A complete (blank) state: the macro body may print, call functions, etc. while it is evaluated.
+	st := NewBlankState()
+	st.env = extended
+	st.rootEnv = extended
+	return st
 }
